@@ -134,6 +134,20 @@ def parse(src, name="c"):
             teal = PT.parse_teal(src, name)
     return teal, cap
 
+def exit_kind(b):
+    e = b.exit_instr
+    t = type(e)
+    if t is I.Callsub: return 'callsub:' + penc(e.label)
+    if t is I.Retsub: return 'retsub'
+    if t is I.BZ: return 'bz:' + penc(e.label)
+    if t is I.BNZ: return 'bnz:' + penc(e.label)
+    if t is I.B: return 'b:' + penc(e.label)
+    if t is I.Switch: return 'switch'
+    if t is I.Match: return 'match'
+    if t is I.Err: return 'err'
+    if t is I.Return: return 'return'
+    return '-'
+
 def render_teal(teal, cap):
     out = []
     live = set(teal.bbs)
@@ -142,7 +156,7 @@ def render_teal(teal, cap):
     for b in allb:
         sub = b._subroutine.name if b._subroutine is not None else '-'
         out.append(f"block {b.idx} live={1 if b in live else 0} sub={penc(sub)} lines={b.entry_instr.line}-{b.exit_instr.line} "
-                   f"n={len(b.instructions)} next={nl(x.idx for x in b.next)} prev={nl(x.idx for x in b.prev)}")
+                   f"n={len(b.instructions)} next={nl(x.idx for x in b.next)} prev={nl(x.idx for x in b.prev)} exit={exit_kind(b)}")
     for s in [teal.main] + list(teal.subroutines.values()):
         out.append(f"sub {penc(s.name)} entry={s.entry.idx} blocks={nl(x.idx for x in s.blocks)} exits={nl(x.idx for x in s.exit_blocks)} "
                    f"callers={nl(x.idx for x in s.caller_blocks)} retpoints={nl(x.idx for x in s.return_point_blocks)}")
@@ -187,7 +201,7 @@ def render_function(function, keys):
         except Exception as e:  # noqa
             ab = 'E'
         out.append(f"fblock {keys[b]} idx={b.idx} sub={penc(b.subroutine.name)} n={len(b.instructions)} "
-                   f"next={nl(K(x) for x in b.next)} prev={nl(K(x) for x in b.prev)} leaf={1 if leaf_block_global(b) else 0} abs={ab} exit={'callsub:' + penc(b.exit_instr.label) if b.is_callsub_block else ('retsub' if b.is_retsub_block else '-')}")
+                   f"next={nl(K(x) for x in b.next)} prev={nl(K(x) for x in b.prev)} leaf={1 if leaf_block_global(b) else 0} abs={ab} exit={exit_kind(b)} lines={b.entry_instr.line}-{b.exit_instr.line}")
     construct_stack_ast.cache_clear()
     for s in [function.main] + list(function.subroutines.values()):
         callers = function.caller_blocks(s) if s is not function.main else []
